@@ -3,13 +3,38 @@ C04 — routes and trees never use an edge or turn the query is forbidden to use
 
 Per-model statements about the frontier models of `Model/Instance.lean` (road class, vehicle
 restriction with unit conversion through the generated tables, turn restriction, edge cut, and
-their combination).  (Tree / route level theorems are added from `Proofs/SearchRoute`.)
+their combination), then the search level.
+
+What the search-level theorems cover, said once:
+* **forbidden edges** (road class, vehicle restriction, edge cut, any combination, with or without
+  a turn-restriction model beside them): `config_edges_permitted` — every tree entry and every route
+  element of every vertex-oriented run of **every** configuration, any algorithm setting (A* with
+  re-opening included), schedule and direction; no hypothesis;
+* **what the frontier model was asked** about a tree entry: `tree_edges_valid` (every instance; the
+  pair is the one the entry's parent carried *when the entry was written*), and under the Dijkstra
+  discipline the pair the parent carries in the *returned* tree (`dijkstra_tree_edges_valid`,
+  `consistent_tree_edges_valid`).  For A* with an estimate that is inconsistent for the network the
+  two differ (`restricted_turn_after_reopening_counterexample`, a recorded finding);
+* **restricted turns**: forward Dijkstra routes contain none
+  (`dijkstra_route_no_restricted_turn_forward`).  A **reverse** search shows the frontier model the
+  pair in *search* order, i.e. (later edge, earlier edge) of the travel order the restrictions are
+  listed in, so a reverse route can take a listed turn
+  (`reverse_search_restricted_turn_counterexample`; recorded finding — the application runs plain
+  searches forward only, and the single-via k-shortest-path algorithm, the one user of
+  `Direction::Reverse`, re-validates its alternatives in travel order since /repo bfda969, C13);
+* **edge-oriented queries** are covered only *between* their endpoint edges: the origin and the
+  destination edge are given by the query, attached by `run_edge_oriented` without consulting the
+  frontier model — neither the edges themselves (`edge_oriented_endpoint_edges_counterexample`) nor
+  the turns at the two seams (`edge_oriented_seam_counterexample`); recorded findings, by design of
+  `run_edge_oriented`.  The inner elements and the tree are covered
+  (`edge_oriented_inner_edges_permitted`).
 -/
 import Compass.Proofs.Num
 import Compass.Model.Instance
 import Compass.Proofs.SearchRoute
 import Compass.Proofs.SearchDiscipline
 import Compass.Proofs.Build
+import Compass.Proofs.SearchValid
 
 namespace Compass
 namespace C04
@@ -60,10 +85,46 @@ theorem vehicle_weight_valid_iff (p : VehicleParams α) (limit : α) (unit : Wei
       p.totalWeight.2.convert unit p.totalWeight.1 ≤ limit := by
   simp [Restriction.valid]
 
+/-- weight per axle: with at least one axle the converted weight divided by the number of axles is
+compared with the limit.  `from_query` also accepts **0 axles** (`vehicle_parameters_parsed_exactly`);
+the code then compares the f64 quotient by zero — +∞ for a positive weight, so the edge is refused
+whatever the limit; −∞ for a negative weight, so it is usable; NaN for weight 0, refused — and the
+model says the same in every number type (no `x / 0 = 0`). -/
 theorem vehicle_weight_per_axle_valid_iff (p : VehicleParams α) (limit : α) (unit : WeightUnit) :
     (Restriction.weight true limit unit).valid p = true ↔
+      (p.axles ≠ 0 ∧ p.totalWeight.2.convert unit p.totalWeight.1 / p.axles ≤ limit) ∨
+      (p.axles = 0 ∧ p.totalWeight.2.convert unit p.totalWeight.1 < 0) := by
+  simp only [Restriction.valid, if_true, perAxleOk, beq_iff_eq, zero_eq]
+  by_cases hax : p.axles = 0
+  · simp only [hax, if_true, ne_eq, not_true_eq_false, false_and, true_and, false_or]
+    rcases lt_trichotomy (p.totalWeight.2.convert unit p.totalWeight.1) 0 with hw | hw | hw
+    · simp [hw, not_lt.2 (le_of_lt hw)]
+    · simp [hw]
+    · simp only [hw, if_true, not_lt.2 (le_of_lt hw), iff_false, Bool.and_eq_true, decide_eq_true_eq,
+        not_and, not_le]
+      intro hl
+      linarith
+  · simp [hax]
+
+/-- the two readings separately: at least one axle … -/
+theorem vehicle_weight_per_axle_positive_axles (p : VehicleParams α) (limit : α) (unit : WeightUnit)
+    (hax : p.axles ≠ 0) :
+    (Restriction.weight true limit unit).valid p = true ↔
       p.totalWeight.2.convert unit p.totalWeight.1 / p.axles ≤ limit := by
-  simp [Restriction.valid]
+  rw [vehicle_weight_per_axle_valid_iff]
+  simp [hax]
+
+/-- … and none: a vehicle of positive weight meets no per-axle limit -/
+theorem vehicle_weight_per_axle_zero_axles (p : VehicleParams α) (limit : α) (unit : WeightUnit)
+    (hax : p.axles = 0) (hw : 0 < p.totalWeight.2.convert unit p.totalWeight.1) :
+    (Restriction.weight true limit unit).valid p = false := by
+  have := vehicle_weight_per_axle_valid_iff p limit unit
+  cases hv : (Restriction.weight true limit unit).valid p with
+  | false => rfl
+  | true =>
+    rcases this.1 hv with ⟨h, _⟩ | ⟨_, h⟩
+    · exact absurd hax h
+    · exact absurd h (not_lt.2 (le_of_lt hw))
 
 theorem vehicle_length_valid_iff (p : VehicleParams α) (limit : α) (unit : DistanceUnit) :
     ((Restriction.length 2 limit unit).valid p = true ↔ p.totalLength.2.convert unit p.totalLength.1 ≤ limit) ∧
@@ -112,36 +173,155 @@ theorem combined_false_of_refusal (ms₁ ms₂ : List (FrontierM α)) (m : Front
     exact ih (fun m' hm' => h₁ m' (List.mem_cons_of_mem _ hm'))
 
 
+/-! ### What "permitted" means, model by model -/
+
+/-- the edge `e` is permitted by the model `m` taken alone (a turn-restriction model forbids no edge
+as such) -/
+def EdgeAllowedBy (m : FrontierM α) (e : Nat) : Prop :=
+  match m with
+  | .roadClass none _ => True
+  | .roadClass (some cls) table => ∃ c, table[e]? = some c ∧ c ∈ cls
+  | .turnRestriction _ => True
+  | .vehicle table p =>
+    ∀ row, table.find? (fun r => r.1 == e) = some row → ∀ r ∈ row.2, r.valid p = true
+  | .edgeCut cut => e ∉ cut
+
+/-- a model, asked without previous edge, answers "usable" exactly for the edges it permits: class in
+the allowed set; every restriction of the edge's row satisfied after unit conversion
+(`vehicle_weight_valid_iff`, `vehicle_weight_per_axle_valid_iff`, `vehicle_length_valid_iff`); not
+cut -/
+theorem model_allows_iff (m : FrontierM α) (e : Nat) :
+    m.valid e none = some true ↔ EdgeAllowedBy m e := by
+  cases m with
+  | roadClass allowed table =>
+    cases allowed with
+    | none => simp [EdgeAllowedBy, FrontierM.valid]
+    | some cls => exact road_class_valid_iff cls table e none
+  | turnRestriction pairs => simp [EdgeAllowedBy, FrontierM.valid]
+  | vehicle table p => exact vehicle_model_valid_iff table p e none
+  | edgeCut cut => exact no_cut_edge cut e none
+
+/-- `Config.okOf e`: every model of the configuration permits `e` (combined = all) -/
+theorem okOf_iff_all_models (c : Config α) (e : Nat) :
+    c.okOf e = true ↔ ∀ m ∈ c.frontier, EdgeAllowedBy m e := by
+  rw [SearchValid.okOf_iff]
+  exact forall₂_congr (fun m _ => model_allows_iff m e)
+
 /-! ### Search level: what the search keeps was submitted to, and accepted by, the frontier model -/
 
-/-- Every entry of a returned tree (search with or without destination, any algorithm setting,
-any schedule, forward or reverse) records an edge that the frontier model accepted for the state
-and previous edge its parent carried when the entry was written, with the costs and state the
-traversal returned.  No hypothesis on the instance. -/
+open SearchLimits in
+/-- **Every instance, no hypothesis** (search with or without destination, any algorithm setting,
+any schedule, forward or reverse).  Every entry `v ↦ b` of a returned tree was written in a loop
+turn of this very run: there are a prefix `pre₀ ++ [u]` of the replayed schedule and the loop head
+`h₀` the run reached after expanding `pre₀`, such that `b.edge` is one of the edges iterated at `u`,
+`v` is its far end and `b.terminal` its near end, and the frontier model accepted `b.edge` — and the
+traversal returned `b`'s costs and state — **for the state and previous edge the loop read at `u`
+at `h₀`**: the initial state and no previous edge when `u` is the search origin, otherwise the state
+and edge of the tree entry `u` had at that loop head.  (With consistent incident lists `u` is
+`b.terminal`, the entry's parent: `tree_entry_joins` of C01.)
+
+What this does *not* say: that `u`'s entry in the *returned* tree is still that one.  Under the
+Dijkstra discipline it is (`dijkstra_tree_edges_valid`); for A* with re-opening it need not be
+(`restricted_turn_after_reopening_counterexample`). -/
 theorem tree_edges_valid (I : Inst α) (source : Nat) (target : Option Nat) (sched : List Nat)
     (s : SState α) (h : runAStar I source target sched = .ok s) :
-    ∀ v b, s.sol v = some b → ∃ (st : List α) (le : Option Nat),
-      I.valid b.edge st le = .ok true ∧ I.trav b.edge le st = .ok (b.access, b.traversal, b.state) :=
-  SearchRoute.runAStar_validInv I source target sched s h
+    ∀ v b, s.sol v = some b → v = I.keyV b.edge ∧ b.terminal = I.termV b.edge ∧
+      ∃ (f0 : α) (pre₀ : List Nat) (h₀ : SState α) (u : Nat) (le : Option Nat) (st : List α),
+        startF I source target = .ok f0 ∧
+        Reach I source target pre₀ (initState source f0) h₀ ∧ (pre₀ ++ [u]) <+: sched ∧
+        b.edge ∈ I.incident u ∧
+        ((u = source ∧ le = none ∧ st = I.init) ∨
+          (u ≠ source ∧ ∃ bu, h₀.sol u = some bu ∧ le = some bu.edge ∧ st = bu.state)) ∧
+        I.valid b.edge st le = .ok true ∧
+        I.trav b.edge le st = .ok (b.access, b.traversal, b.state) := by
+  intro v b hb
+  obtain ⟨hk, f0, pre₀, h₀, u, hf0, hr, hpre, hinc, hterm, le, st, hcur, hv, htr⟩ :=
+    SearchValid.runAStar_entry_history I source target sched s h v b hb
+  exact ⟨hk, hterm, f0, pre₀, h₀, u, le, st, hf0, hr, hpre, hinc, SearchValid.curOf_cases hcur, hv, htr⟩
 
-/-- For restrictions that depend only on the edge (road classes, vehicle restrictions, edge cuts and
-their combinations): no tree entry and no route edge is a forbidden edge. -/
-theorem route_edges_permitted (I : Inst α) (ok : Nat → Bool)
-    (hloc : ∀ e st le, I.valid e st le = .ok (ok e)) (source : Nat) (target : Option Nat)
-    (sched : List Nat) (res : SearchResult α)
-    (h : runVertexOriented I source target sched = .ok res) :
-    (∀ v b, res.final.sol v = some b → ok b.edge = true) ∧
-    (∀ route, res.route = some route → ∀ e ∈ route.map (·.edge), ok e = true) :=
-  SearchRoute.route_edges_ok hloc h
+open SearchDiscipline in
+/-- **Dijkstra, every configuration** (turn restrictions, turn delays, any state-dependent model,
+forward or reverse, with or without destination): every entry `v ↦ b` of the returned tree was
+accepted by the frontier model, and traversed, from the pair its parent carries **in the returned
+tree**: from the initial state and no previous edge when the parent is the search origin, from
+`(bu.state, some bu.edge)` with `bu` the parent's entry otherwise (and that entry exists). -/
+theorem dijkstra_tree_edges_valid (c : Config α) (hadj : c.AdjConsistent) (hwf : c.wf = some 0)
+    {source : Nat} {target : Option Nat} {sched : List Nat} {s : SState α}
+    (hrun : runAStar c.inst source target sched = .ok s) {v : Nat} {b : Branch α}
+    (hb : s.sol v = some b) :
+    (b.terminal = source ∧
+      c.inst.valid b.edge (initialState c.feats) none = .ok true ∧
+      c.inst.trav b.edge none (initialState c.feats) = .ok (b.access, b.traversal, b.state)) ∨
+    (b.terminal ≠ source ∧ ∃ bu, s.sol b.terminal = some bu ∧
+      c.inst.valid b.edge bu.state (some bu.edge) = .ok true ∧
+      c.inst.trav b.edge (some bu.edge) bu.state = .ok (b.access, b.traversal, b.state)) :=
+  entry_fresh (c.inst_wf hadj) (config_zeroH c hwf) hrun hb
 
+open SearchDiscipline in
+/-- the same for every instance with positive costs whose heuristic is a consistent function of the
+vertex (`Heur`: along every accepted traversal it drops by at most the cost charged) -/
+theorem consistent_tree_edges_valid {I : Inst α} (hI : SearchTree.WF I) {H : Nat → α}
+    {source : Nat} {target : Option Nat} (hH : Heur I target.isSome H)
+    {sched : List Nat} {s : SState α} (hrun : runAStar I source target sched = .ok s)
+    {v : Nat} {b : Branch α} (hb : s.sol v = some b) :
+    (b.terminal = source ∧
+      I.valid b.edge I.init none = .ok true ∧
+      I.trav b.edge none I.init = .ok (b.access, b.traversal, b.state)) ∨
+    (b.terminal ≠ source ∧ ∃ bu, s.sol b.terminal = some bu ∧
+      I.valid b.edge bu.state (some bu.edge) = .ok true ∧
+      I.trav b.edge (some bu.edge) bu.state = .ok (b.access, b.traversal, b.state)) :=
+  entry_fresh_of_heur hI hH hrun hb
+
+/-- **No forbidden edge in trees and routes.**  For **every** configuration (road class, vehicle
+restriction, edge cut, turn restriction, in any combination; any traversal / access / cost /
+termination model), every vertex-oriented run (with or without destination, Dijkstra or A* with any
+weight factor and estimate, re-opening or not, any schedule, forward or reverse): every entry of the
+returned tree and every element of the returned route carries an edge that **every** model of the
+configuration permits — its road class is in the allowed set, the vehicle meets every restriction of
+the edge after unit conversion, and the edge is not cut (`EdgeAllowedBy`; a turn-restriction model
+forbids pairs of edges, no edge).  No hypothesis. -/
+theorem config_edges_permitted (c : Config α)
+    {source : Nat} {target : Option Nat} {sched : List Nat} {r : AlgResult α}
+    (h : c.runVertex source target sched = .ok r) :
+    (∀ tree ∈ r.trees, ∀ v b, tree v = some b →
+      c.okOf b.edge = true ∧ ∀ m ∈ c.frontier, EdgeAllowedBy m b.edge) ∧
+    (∀ route ∈ r.routes, ∀ b ∈ route,
+      c.okOf b.edge = true ∧ ∀ m ∈ c.frontier, EdgeAllowedBy m b.edge) := by
+  obtain ⟨h1, h2⟩ := SearchValid.config_edges_permitted c h
+  exact ⟨fun tree ht v b hb => ⟨h1 tree ht v b hb, (okOf_iff_all_models c _).1 (h1 tree ht v b hb)⟩,
+    fun route hr b hb => ⟨h2 route hr b hb, (okOf_iff_all_models c _).1 (h2 route hr b hb)⟩⟩
+
+/-- **Edge-oriented queries, between the endpoint edges** (non-adjacent origin and destination
+edges; every configuration): every entry of the returned tree and every *inner* element of the
+route — everything but the origin element in front and the destination element behind — carries a
+permitted edge.  The two endpoint edges are not covered: `edge_oriented_endpoint_edges_counterexample`. -/
+theorem edge_oriented_inner_edges_permitted (c : Config α) (source tgt : Nat) (sched : List Nat)
+    (r : AlgResult α) (e1 e2 : EdgeRec α) (h1 : c.edges[source]? = some e1)
+    (h2 : c.edges[tgt]? = some e2) (hne : source ≠ tgt) (hnadj : e1.dst ≠ e2.src)
+    (h : c.runEdge source (some tgt) sched = .ok r) :
+    (∀ tree ∈ r.trees, ∀ v b, tree v = some b → c.okOf b.edge = true) ∧
+    ∃ (origin dest : Branch α) (inner : List (Branch α)),
+      r.routes = [origin :: inner ++ [dest]] ∧ origin.edge = source ∧ dest.edge = tgt ∧
+      ∀ b ∈ inner, c.okOf b.edge = true := by
+  obtain ⟨ht, inner, last, hroutes, hin⟩ :=
+    SearchRoute.runEdge_inner_valid c source tgt sched r e1 e2 h1 h2 hne hnadj h
+  refine ⟨fun tree htree v b hb => ?_, _, _, inner, hroutes, rfl, rfl, fun b hb => ?_⟩
+  · obtain ⟨st, le, hv, _⟩ := ht tree htree v b hb
+    exact SearchValid.okOf_of_valid c hv
+  · obtain ⟨st, le, hv, _⟩ := hin b hb
+    exact SearchValid.okOf_of_valid c hv
 
 open SearchDiscipline in
 /-- Dijkstra, every configuration incl. turn restrictions and state-dependent models: every
-consecutive pair of edges of the returned route was submitted to the frontier model as
-(previous edge, edge) with the previous element's reported state, and accepted — so the route
-contains no restricted turn and no edge refused for the state it was reached in.
-(`_partial`: false of model and code for A* with an estimate inconsistent for the network, and at
-the two seams of edge-oriented routes — see known_findings.txt.) -/
+consecutive pair of elements of the returned route was submitted to the frontier model as
+(previous edge, edge) **in search order** with the previous element's reported state, and accepted —
+so no element carries an edge refused for the state it was reached in, and in a forward search the
+route contains no restricted turn (`dijkstra_route_no_restricted_turn_forward`).
+(`_partial`, three exclusions, each with a counterexample below and a line in known_findings.txt:
+A* with an estimate inconsistent for the network — false of model and code; **reverse searches** —
+the statement holds but is about search-order pairs, while restrictions are listed in travel order,
+so a reverse route can take a listed turn; the two seams and the two endpoint edges of edge-oriented
+routes.) -/
 theorem dijkstra_route_turns_valid_partial (c : Config α) (hadj : c.AdjConsistent) (hwf : c.wf = some 0)
     {source t : Nat} {sched : List Nat} {res : SearchResult α} (hts : t ≠ source)
     (hrun : runVertexOriented c.inst source (some t) sched = .ok res) :
@@ -153,8 +333,33 @@ theorem dijkstra_route_turns_valid_partial (c : Config α) (hadj : c.AdjConsiste
     route_links_fresh (c.inst_wf hadj) (config_zeroH c hwf) hts hrun
   exact ⟨route, h1, h2, fun b hb => (h5 b hb).1, fun i hi => (h6 i hi).1⟩
 
+/-- an accepted (previous edge, edge) pair is not listed by any turn-restriction model of the
+configuration, and the edge is permitted by every model -/
+theorem accepted_pair_not_restricted (c : Config α) {e p : Nat} {st : List α}
+    (h : c.inst.valid e st (some p) = .ok true) :
+    ∀ pairs, FrontierM.turnRestriction pairs ∈ c.frontier → (p, e) ∉ pairs := by
+  intro pairs hm
+  simp only [Config.inst] at h
+  split at h
+  · cases h
+  · exact (turn_restriction_valid_iff pairs e p).1
+      ((SearchValid.frontierValid_true_iff c.frontier e (some p)).1 h _ hm)
 
-/-! ### Counterexamples on the model for the two recorded findings -/
+/-- **Forward Dijkstra routes take no restricted turn**: no two consecutive edges of the returned
+route are listed — in travel order, as the restrictions are — by a turn-restriction model of the
+configuration (alone or inside a combination). -/
+theorem dijkstra_route_no_restricted_turn_forward (c : Config α) (hadj : c.AdjConsistent)
+    (hwf : c.wf = some 0) (_hfwd : c.reverse = false)
+    {source t : Nat} {sched : List Nat} {res : SearchResult α} (hts : t ≠ source)
+    (hrun : runVertexOriented c.inst source (some t) sched = .ok res) :
+    ∃ route, res.route = some route ∧
+      ∀ pairs, FrontierM.turnRestriction pairs ∈ c.frontier →
+        ∀ i (hi : i + 1 < route.length), (route[i].edge, route[i + 1].edge) ∉ pairs := by
+  obtain ⟨route, h1, _, _, h4⟩ := dijkstra_route_turns_valid_partial c hadj hwf hts hrun
+  exact ⟨route, h1, fun pairs hm i hi => accepted_pair_not_restricted c (h4 i hi) pairs hm⟩
+
+
+/-! ### Counterexamples on the model for the recorded findings -/
 
 /-- the 5-vertex re-opening witness (see `C03.staleConfig`) with the turn (w→u, u→v) = (2,3) restricted -/
 def staleTurnConfig : Config ℚ where
@@ -204,6 +409,39 @@ def seamConfig : Config ℚ where
 
 theorem edge_oriented_seam_counterexample :
     routeEdgesOf (seamConfig.runEdge 0 (some 2) [1, 2]) = some [[0, 1, 2]] ∧
+    (FrontierM.turnRestriction (α := ℚ) [(0, 1)]).valid 1 (some 0) = some false := by
+  decide +kernel
+
+/-- Edge-oriented endpoint edges are never shown to the frontier model.  On the same network:
+(a) with the origin edge 0 and the destination edge 2 both cut, the query from edge 0 to edge 2
+still answers `[0, 1, 2]`, although `okOf` forbids both;
+(b) in the adjacent arm nothing is asked at all: with edge 1 cut *and* the turn (0,1) restricted the
+query from edge 0 to edge 1 answers `[0, 1]`.
+(Recorded finding `route/forbidden-endpoint-edge-edge-oriented`; by design of `run_edge_oriented`:
+the endpoint edges are the query's, not the search's.) -/
+theorem edge_oriented_endpoint_edges_counterexample :
+    (routeEdgesOf (({ seamConfig with frontier := [.edgeCut [0, 2]] } : Config ℚ).runEdge 0 (some 2) [1, 2])
+        = some [[0, 1, 2]] ∧
+      ({ seamConfig with frontier := [.edgeCut [0, 2]] } : Config ℚ).okOf 0 = false ∧
+      ({ seamConfig with frontier := [.edgeCut [0, 2]] } : Config ℚ).okOf 2 = false) ∧
+    (routeEdgesOf (({ seamConfig with frontier := [.edgeCut [1], .turnRestriction [(0, 1)]] } :
+        Config ℚ).runEdge 0 (some 1) []) = some [[0, 1]] ∧
+      ({ seamConfig with frontier := [.edgeCut [1], .turnRestriction [(0, 1)]] } : Config ℚ).okOf 1
+        = false) := by
+  decide +kernel
+
+/-- Reverse searches see the turn pairs reversed.  `run_a_star` hands `valid_frontier` the edge it
+is about to take and the edge it came by **in search order**; `TurnRestrictionFrontierModel` looks
+the pair up as (prev_edge_id, next_edge_id), and the restrictions are listed in travel order.  On
+`seamConfig` searched in reverse from vertex 2 back to vertex 0, Dijkstra returns `[1, 0]` (search
+order): travelled forward that is edge 0 then edge 1, the listed turn (0,1); the model was asked
+about (previous 1, edge 0), which is not listed, and said yes.  (Recorded finding
+`route/restricted-turn-reverse-search`.  The application runs plain searches forward only; the
+single-via k-shortest-path algorithm re-validates its alternatives in travel order, C13.) -/
+theorem reverse_search_restricted_turn_counterexample :
+    routeEdgesOf (({ seamConfig with reverse := true } : Config ℚ).runVertex 2 (some 0) [2, 1, 0])
+      = some [[1, 0]] ∧
+    ({ seamConfig with reverse := true } : Config ℚ).inst.valid 0 [10] (some 1) = .ok true ∧
     (FrontierM.turnRestriction (α := ℚ) [(0, 1)]).valid 1 (some 0) = some false := by
   decide +kernel
 
@@ -440,6 +678,171 @@ example : roadClassesOfQuery [] exQuery = none := by decide
 example : roadClassesOfQuery [("motorway", 1)] exQuery = none := by decide
 example : roadClassesOfQuery [] (.obj [("road_classes", .arr [.num "3" 3, .num "7" 7])]) = some (some [3, 7]) := by decide
 example : roadClassesOfQuery [] (.obj [("road_classes", .arr [.num "256" 256])]) = none := by decide
+
+/-! ### Non-vacuity of the search-level theorems
+
+`permConfig`: five edges 0: 0→1, 1: 1→3, 2: 0→2, 3: 2→3, 4: 0→3 (a 10 m shortcut); a road-class
+model (classes 0 and 1 allowed; the shortcut is class 2), a vehicle-restriction model (edge 1: at
+most 3 short tons in total — the vehicle weighs 8000 kg ≈ 8.8 tons; edge 3: at most 2 tons per axle,
+five axles, and at most 5 m of height, both met), an edge cut (edge 0) and a turn-restriction model,
+combined.  Dijkstra from 0 to 3 must go round by `[2, 3]`. -/
+
+def permConfig : Config ℚ where
+  nV := 4
+  edges := [⟨0, 1, 100⟩, ⟨1, 3, 100⟩, ⟨0, 2, 300⟩, ⟨2, 3, 300⟩, ⟨0, 3, 10⟩]
+  outAdj := [[0, 2, 4], [1], [3], []]
+  inAdj := [[], [0], [2], [1, 3, 4]]
+  feats := [{ name := "distance", kind := .dist .meters, init := 0 }]
+  trav := .distance .meters
+  access := .noAccess
+  cost := { indices := [0], weights := [1], vehicleRates := [.raw], networkRates := [.zero], agg := .sum }
+  frontier := [.roadClass (some [0, 1]) [0, 0, 1, 1, 2],
+    .vehicle [(1, [.weight false 3 .tons]), (3, [.weight true 2 .tons, .length 4 5 .meters])]
+      { height := (4, .meters), width := (5 / 2, .meters), totalLength := (20, .meters),
+        trailerLength := (10, .meters), totalWeight := (8000, .kg), axles := 5 },
+    .edgeCut [0], .turnRestriction [(0, 1), (4, 3)]]
+  term := .combined []
+  reverse := false
+  gc := [0, 0, 0, 0]
+  wf := some 0
+
+/-- (parent, edge) of the tree entry of `v` in a result of `run_a_star` -/
+def entryOf (r : Except ErrKind (SState ℚ)) (v : Nat) : Option (Nat × Nat) :=
+  match r with
+  | .ok s => (s.sol v).map (fun b => (b.terminal, b.edge))
+  | .error _ => none
+
+/-- three edges are forbidden, one by each model; the run avoids them, and `config_edges_permitted`
+says so of every element of the route it returned -/
+example : ∃ r, permConfig.runVertex 0 (some 3) [0, 2, 3] = .ok r ∧
+    routeEdgesOf (permConfig.runVertex 0 (some 3) [0, 2, 3]) = some [[2, 3]] ∧
+    permConfig.okOf 0 = false ∧ permConfig.okOf 1 = false ∧ permConfig.okOf 4 = false ∧
+    ∀ route ∈ r.routes, ∀ b ∈ route,
+      permConfig.okOf b.edge = true ∧ ∀ m ∈ permConfig.frontier, EdgeAllowedBy m b.edge := by
+  have hobs : routeEdgesOf (permConfig.runVertex 0 (some 3) [0, 2, 3]) = some [[2, 3]] := by
+    decide +kernel
+  cases hr : permConfig.runVertex 0 (some 3) [0, 2, 3] with
+  | error k => rw [hr] at hobs; simp [routeEdgesOf] at hobs
+  | ok r =>
+    exact ⟨r, rfl, by rw [← hr]; exact hobs, by decide +kernel, by decide +kernel, by decide +kernel,
+      (config_edges_permitted permConfig hr).2⟩
+
+/-- `tree_edges_valid` on that run: the entry of vertex 3 carries edge 3 and was written in the turn
+of a scheduled vertex `u` at which edge 3 is listed -/
+example : ∃ s b, runAStar permConfig.inst 0 (some 3) [0, 2, 3] = .ok s ∧ s.sol 3 = some b ∧
+    b.edge = 3 ∧ ∃ pre₀ u, (pre₀ ++ [u]) <+: [0, 2, 3] ∧ b.edge ∈ permConfig.inst.incident u := by
+  have hobs : entryOf (runAStar permConfig.inst 0 (some 3) [0, 2, 3]) 3 = some (2, 3) := by
+    decide +kernel
+  cases hs : runAStar permConfig.inst 0 (some 3) [0, 2, 3] with
+  | error k => rw [hs] at hobs; cases hobs
+  | ok s =>
+    rw [hs] at hobs
+    simp only [entryOf] at hobs
+    cases hb : s.sol 3 with
+    | none => rw [hb] at hobs; cases hobs
+    | some b =>
+      rw [hb] at hobs
+      simp only [Option.map_some, Option.some.injEq, Prod.mk.injEq] at hobs
+      obtain ⟨_, _, f0, pre₀, h₀, u, le, st, _, _, hpre, hinc, _⟩ :=
+        tree_edges_valid _ _ _ _ s hs 3 b hb
+      exact ⟨s, b, rfl, hb, hobs.2, pre₀, u, hpre, hinc⟩
+
+/-- `dijkstra_tree_edges_valid` with a turn restriction: the re-opening witness under Dijkstra
+(weight factor 0), destination-less: vertex 2 is entered by edge 2 from vertex 1, accepted for the
+pair (state of 1's entry, previous edge 1) of the returned tree; edge 3 is then refused (turn (2,3)),
+so vertices 3 and 4 stay out of the tree -/
+def staleTurnDijkstra : Config ℚ := { staleTurnConfig with wf := some 0 }
+
+example : ∃ s b bu, runAStar staleTurnDijkstra.inst 0 none [0, 1, 2] = .ok s ∧
+    s.sol 2 = some b ∧ s.sol b.terminal = some bu ∧ s.sol 3 = none ∧
+    staleTurnDijkstra.inst.valid b.edge bu.state (some bu.edge) = .ok true := by
+  have hobs : entryOf (runAStar staleTurnDijkstra.inst 0 none [0, 1, 2]) 2 = some (1, 2) ∧
+      entryOf (runAStar staleTurnDijkstra.inst 0 none [0, 1, 2]) 3 = none := by decide +kernel
+  have hadj : staleTurnDijkstra.AdjConsistent := by
+    intro v e he
+    match v with
+    | 0 => simp [Config.inst, staleTurnDijkstra, staleTurnConfig] at he; rcases he with rfl | rfl <;> rfl
+    | 1 => simp [Config.inst, staleTurnDijkstra, staleTurnConfig] at he; subst he; rfl
+    | 2 => simp [Config.inst, staleTurnDijkstra, staleTurnConfig] at he; subst he; rfl
+    | 3 => simp [Config.inst, staleTurnDijkstra, staleTurnConfig] at he; subst he; rfl
+    | 4 => simp [Config.inst, staleTurnDijkstra, staleTurnConfig] at he
+    | n + 5 => simp [Config.inst, staleTurnDijkstra, staleTurnConfig] at he
+  cases hs : runAStar staleTurnDijkstra.inst 0 none [0, 1, 2] with
+  | error k => rw [hs] at hobs; cases hobs.1
+  | ok s =>
+    rw [hs] at hobs
+    simp only [entryOf] at hobs
+    obtain ⟨h2, h3⟩ := hobs
+    cases hb : s.sol 2 with
+    | none => rw [hb] at h2; cases h2
+    | some b =>
+      rw [hb] at h2
+      simp only [Option.map_some, Option.some.injEq, Prod.mk.injEq] at h2
+      have h3' : s.sol 3 = none := by
+        cases h : s.sol 3 with
+        | none => rfl
+        | some x => rw [h] at h3; cases h3
+      rcases dijkstra_tree_edges_valid staleTurnDijkstra hadj rfl hs hb with ⟨h0, _⟩ | ⟨_, bu, hbu, hv, _⟩
+      · rw [h2.1] at h0; cases h0
+      · exact ⟨s, b, bu, rfl, hb, hbu, h3', hv⟩
+
+/-- `consistent_tree_edges_valid` on the A* run of `SearchDiscipline.Example.instA` (a consistent,
+non-zero heuristic; a restricted turn and a turn delay) -/
+example : ∃ s, runAStar SearchDiscipline.Example.instA 0 (some 3) [0, 1, 2, 3] = .ok s ∧
+    ∀ v b, s.sol v = some b →
+      (b.terminal = 0 ∧ SearchDiscipline.Example.instA.valid b.edge SearchDiscipline.Example.instA.init none = .ok true) ∨
+      (b.terminal ≠ 0 ∧ ∃ bu, s.sol b.terminal = some bu ∧
+        SearchDiscipline.Example.instA.valid b.edge bu.state (some bu.edge) = .ok true) := by
+  have hobs : entryOf (runAStar SearchDiscipline.Example.instA 0 (some 3) [0, 1, 2, 3]) 3 = some (2, 4) := by
+    decide +kernel
+  cases hs : runAStar SearchDiscipline.Example.instA 0 (some 3) [0, 1, 2, 3] with
+  | error k => rw [hs] at hobs; cases hobs
+  | ok s =>
+    refine ⟨s, rfl, fun v b hb => ?_⟩
+    rcases consistent_tree_edges_valid SearchDiscipline.Example.instA_wf
+      (target := some 3) SearchDiscipline.Example.instA_heur hs hb with ⟨h1, h2, _⟩ | ⟨h1, bu, h2, h3, _⟩
+    · exact Or.inl ⟨h1, h2⟩
+    · exact Or.inr ⟨h1, bu, h2, h3⟩
+
+/-- forward Dijkstra with a restricted turn on the way: edges 0: 0→1, 1: 1→2, 2: 0→2 (long), turn
+(0,1) restricted: the route is `[2]`, and `dijkstra_route_no_restricted_turn_forward` applies -/
+def detourConfig : Config ℚ :=
+  { seamConfig with
+    nV := 3
+    edges := [⟨0, 1, 10⟩, ⟨1, 2, 10⟩, ⟨0, 2, 100⟩]
+    outAdj := [[0, 2], [1], []]
+    inAdj := [[], [0], [1, 2]]
+    gc := [0, 0, 0] }
+
+example : ∃ res route, runVertexOriented detourConfig.inst 0 (some 2) [0, 1, 2] = .ok res ∧
+    res.route = some route ∧ route.map (·.edge) = [2] ∧
+    ∀ i (hi : i + 1 < route.length), (route[i].edge, route[i + 1].edge) ∉ [(0, 1)] := by
+  have hobs : routeEdgesOf (detourConfig.runVertex 0 (some 2) [0, 1, 2]) = some [[2]] := by
+    decide +kernel
+  have hadj : detourConfig.AdjConsistent := by
+    intro v e he
+    match v with
+    | 0 => simp [Config.inst, detourConfig, seamConfig] at he; rcases he with rfl | rfl <;> rfl
+    | 1 => simp [Config.inst, detourConfig, seamConfig] at he; subst he; rfl
+    | 2 => simp [Config.inst, detourConfig, seamConfig] at he
+    | n + 3 => simp [Config.inst, detourConfig, seamConfig] at he
+  cases hr : detourConfig.runVertex 0 (some 2) [0, 1, 2] with
+  | error k => rw [hr] at hobs; simp [routeEdgesOf] at hobs
+  | ok r =>
+    obtain ⟨res, hres, _, hroutes, _⟩ := SearchRoute.runVertex_ok hr
+    obtain ⟨route, h1, h2⟩ := dijkstra_route_no_restricted_turn_forward detourConfig hadj rfl rfl
+      (by decide) hres
+    rw [hr] at hobs
+    simp only [routeEdgesOf, hroutes, h1, Option.toList_some, List.map_cons, List.map_nil,
+      Option.some.injEq, List.cons.injEq, and_true] at hobs
+    exact ⟨res, route, hres, h1, hobs, h2 [(0, 1)] (by simp [detourConfig, seamConfig])⟩
+
+/-- no axles: over ℚ as in f64 a vehicle of positive weight meets no per-axle limit (the quotient is
++∞), however generous -/
+example : (Restriction.weight true (1000000 : ℚ) .kg).valid
+    { height := (1, .meters), width := (1, .meters), totalLength := (1, .meters),
+      trailerLength := (1, .meters), totalWeight := (1, .kg), axles := 0 } = false := by
+  decide +kernel
 
 /-! ### Non-vacuity -/
 example : (FrontierM.roadClass (α := ℚ) (some [1, 2]) [0, 2, 5]).valid 1 none = some true := by decide
